@@ -278,7 +278,7 @@ class TrigPoly:
         return NotImplemented
 
     def conjugate(self):
-        return TrigPoly({tuple((a, -p) for a, p in k): c_conj(v) for k, v in self.t.items()})
+        return TrigPoly({tuple((a, (p if a.startswith("sgn_") else -p)) for a, p in k): c_conj(v) for k, v in self.t.items()})
 
     conj = conjugate
 
@@ -362,7 +362,8 @@ def _mono_mul(k1, k2):
     d = dict(k1)
     for a, p in k2:
         d[a] = d.get(a, 0) + p
-    return tuple(sorted((a, p) for a, p in d.items() if p != 0))
+    # sign atoms (-1)**K of integer symbols: real, w*w == 1
+    return tuple(sorted((a, (p % 2 if a.startswith("sgn_") else p)) for a, p in d.items() if (p % 2 if a.startswith("sgn_") else p) != 0))
 
 
 class Sqrt2:
@@ -529,6 +530,12 @@ class Angle:
                     raise TypeError(f"cis(pi*{q}) is outside Q(zeta_{N})")
                 r = r * TrigPoly({(): c_zeta_pow(int(p))})
                 continue
+            ints = [x for x in k if x.startswith("int#")]
+            if len(ints) == 1 and sorted(k) == sorted(["pi", ints[0]]) and q.denominator == 1:
+                # cis(pi * q * K), K an integer: 1 for even q, the sign (-1)**K for odd q (a unit atom of its own)
+                if q % 2 == 1:
+                    r = r * TrigPoly.atom("sgn_" + ints[0], 1)
+                continue
             p = q * D
             if p.denominator != 1:
                 raise TypeError(f"angle coefficient {q} of {k} needs a finer atom denominator than {D}")
@@ -569,6 +576,8 @@ class Angle:
         d = self - Angle.of(o)
         if d is not NotImplemented and d.is_number() and not d.imag:
             return op(d.m.get((), Fraction(0)), 0)
+        if CTX is not None and hasattr(CTX, "decide_order"):
+            return CTX.decide_order(self, o, op)
         raise Undecided(f"order comparison on symbolic parameter: {self!r} vs {o!r}")
 
     def __lt__(self, o):
@@ -592,7 +601,15 @@ class Angle:
     def __mod__(self, o):
         if self.is_number() and not self.imag:
             return self.m.get((), Fraction(0)) % o
+        if CTX is not None and hasattr(CTX, "integer_symbol") and isinstance(o, int) and not self.imag:
+            # x % o == x - o*K for the integer K = floor(x / o); K is a fresh integer-valued symbol (see cis())
+            return self - o * Angle.sym(CTX.integer_symbol(self, o))
         return UndecidedValue(f"({self!r}) % {o}")
+
+    def __abs__(self):
+        if self.is_number() and not self.imag:
+            return abs(self.m.get((), Fraction(0)))
+        return UndecidedValue(f"abs({self!r})")
 
     def __float__(self):
         if self.is_number() and not self.imag:
@@ -628,7 +645,13 @@ class UndecidedValue:
     def __ne__(self, o):
         return not self.__eq__(o)
 
-    __lt__ = __le__ = __gt__ = __ge__ = __bool__ = _u
+    def _ord(self, o):
+        if CTX is not None and hasattr(CTX, "decide_undecided_order"):
+            return CTX.decide_undecided_order(f"{self.what} <=> {o!r}")
+        raise Undecided(self.what)
+
+    __lt__ = __le__ = __gt__ = __ge__ = _ord
+    __bool__ = _u
     __hash__ = object.__hash__
 
 
